@@ -82,13 +82,21 @@ int main(int argc, char** argv) {
       }
       J c = p.json(); c.i("hierarchy", hier);
       try {
-         MSSMNoFV_onshell m1 = gen::make_mssm(p, 1, +1), m2 = gen::make_mssm(p, 1, -1);
+         // the flipped twin: a fresh object, a copy of the calculated original re-filled through the setters, or a long-lived object re-filled for every case (scan loop)
+         const int twin = static_cast<int>(i % 3);
+         static const char* const TWIN[3] = {"", "|twin=refilled-copy-of-original", "|twin=long-lived-object"};
+         MSSMNoFV_onshell m1 = gen::make_mssm(p, 1, +1);
+         static thread_local MSSMNoFV_onshell longlived;
+         if (twin == 2) { gen::fill_mssm(longlived, p, 1, +1); longlived.calculate_masses(); }   // (it holds the original point first, as a scan over sign choices would)
+         MSSMNoFV_onshell m2 = twin == 0 ? gen::make_mssm(p, 1, -1) : (twin == 1 ? m1 : longlived);
+         if (twin != 0) { m2.get_problems().clear(); gen::fill_mssm(m2, p, 1, -1); m2.calculate_masses(); if (twin == 2) longlived = m2; }
+         c.str("twin", twin == 0 ? "fresh" : TWIN[twin] + 6);
          if (m1.get_problems().have_problem() || m2.get_problems().have_problem()) { ++o.inconclusive; o.count("problem-flagged"); continue; }
          double S1a = 0, S1b = 0;
          const std::vector<Q> q1 = observe(m1, S1a), q2 = observe(m2, S1b);
          const double S1 = std::max(S1a, S1b);
          ++o.conclusive;
-         const std::string sg = std::string("sgn") + (p.mu > 0 ? "+" : "-") + (p.m1 > 0 ? "+" : "-") + (p.m2 > 0 ? "+" : "-") + (p.m3 > 0 ? "+" : "-") + (hier ? "|hierarchy" : "");
+         const std::string sg = std::string("sgn") + (p.mu > 0 ? "+" : "-") + (p.m1 > 0 ? "+" : "-") + (p.m2 > 0 ? "+" : "-") + (p.m3 > 0 ? "+" : "-") + (hier ? "|hierarchy" : "") + TWIN[twin];
          // arrays of couplings are compared on the scale of their largest entry
          double smax_aan = 0, smax_bbn = 0;
          for (size_t k = 0; k < q1.size(); ++k) if (q1[k].kind == 4) { double& s = (q1[k].name[0] == 'A') ? smax_aan : smax_bbn; s = std::max({s, std::fabs(q1[k].v), std::fabs(q2[k].v)}); }
